@@ -554,7 +554,9 @@ Section Ref.
     rewrite E. destruct (p_batch p) as [|e0 b0] eqn:Eb.
     - cbn [fst]. unfold inv2. cbn [slots seqs log nreq]. split; [|split; [exact Hlokp|split; [exact Hlidp|exact Hreqlt]]].
       pose proof (m2_nout _ _ _ _ _ H2p) as Hn. cbn in Hn. rewrite <- Hn. exact H2p.
-    - rewrite <- Eb in Hmp, H2p |- *. set (kv' := kv_forward (kv_evict cfg (p_kv p) (p_batch p)) (p_batch p)).
+    - rewrite <- Eb in Hmp, H2p |- *.
+      destruct (kv_full cfg (kv_evict cfg (p_kv p) (p_batch p)) (p_batch p)); [exact (conj H2 (conj Hlok (conj Hlid Hrlt)))|].
+      set (kv' := kv_forward (kv_evict cfg (p_kv p) (p_batch p)) (p_batch p)).
       destruct (post_all F cfg kv' (p_batch p) (p_slots p) (p_seqs p)) as [[[sl' qs'] ev]|] eqn:EP; [|exact (conj H2 (conj Hlok (conj Hlid Hrlt)))].
       cbn [fst]. destruct (post_all_spec F _ _ _ _ _ _ _ _ EP) as (L1 & L2 & Hfr & Hown & Hnone).
       destruct (post_all_events _ _ _ _ _ _ _ EP) as (Hevreq & Hevns & Hevown).
